@@ -148,6 +148,7 @@ fn apply(world: &World, s: &Setup, psbt: &mut Psbt, op: &Op) -> Outcome {
                 Err(m) => Outcome::Panic(m),
             }
         }
+        Op::AddSig(i, _) | Op::AddPre(i, _) if is_final(&psbt.inputs[*i]) => Outcome::Ok,
         Op::AddSig(i, key_id) => {
             let ip = &s.inputs[*i];
             let spend = Spend { tx: s.tx.clone(), prevouts: s.prevouts.clone(), idx: *i };
@@ -353,7 +354,10 @@ fn check_update_fields(rep: &mut Report, case: u64, world: &World, s: &Setup, ps
                 }
                 for (x, (leaves, _)) in &inp.tap_key_origins {
                     for lh in leaves {
-                        let ok = ip.target.paths.iter().any(|p| p.leaf_hash == Some(*lh) && p.script.windows(32).any(|w| w == x.serialize()));
+                        let kh = hash160::Hash::hash(&x.serialize()).to_byte_array();
+                        let ok = ip.target.paths.iter().any(|p| {
+                            p.leaf_hash == Some(*lh) && (p.script.windows(32).any(|w| w == x.serialize()) || p.script.windows(20).any(|w| w == kh))
+                        });
                         if !ok {
                             bad.push("tap_key_origins lists a leaf hash whose script does not contain the key".into());
                         }
@@ -374,7 +378,11 @@ fn check_update_fields(rep: &mut Report, case: u64, world: &World, s: &Setup, ps
             let pk = k.to_public_key().inner;
             match inp.bip32_derivation.get(&pk) {
                 Some((fp, path)) => {
-                    if *fp != k.master_fingerprint() || Some(path.clone()) != k.full_derivation_path() {
+                    // one map entry per secp key: the same key in two encodings has two fingerprints
+                    let any = keys.iter().any(|k2| {
+                        k2.to_public_key().inner == pk && *fp == k2.master_fingerprint() && Some(path.clone()) == k2.full_derivation_path()
+                    });
+                    if !any {
                         bad.push(format!("bip32_derivation of {} has the wrong key source", k));
                     }
                 }
@@ -466,7 +474,9 @@ pub fn run(cfg: &RunCfg, rep: &mut Report) {
             for j in 0..n {
                 let was = is_final(&before[j]);
                 let now = is_final(&psbt.inputs[j]);
-                if was && psbt.inputs[j] != before[j] {
+                // only library operations are judged: the harness itself adds fields in AddSig/AddPre
+                let lib_op = !matches!(op, Op::AddSig(..) | Op::AddPre(..));
+                if was && lib_op && psbt.inputs[j] != before[j] {
                     rep.violation(i, "C14:final-input-altered".into(), format!("input {} was final and changed by {:?}: {}", j, op, describe(&s, &hist)));
                 }
                 if !was && now {
@@ -595,7 +605,11 @@ pub fn run(cfg: &RunCfg, rep: &mut Report) {
             rng.shuffle(&mut seq);
             rep.eval();
             if let (Some(a), Some(b)) = (finals(&field_ops, None, mall), finals(&field_ops, Some(&seq), mall)) {
-                if a != b {
+                // judged without assuming what a failing whole-PSBT call does to the other inputs:
+                // an input final in both runs has the same data, and "everything final" agrees
+                let fin = |x: &(Option<ScriptBuf>, Option<Witness>)| x.0.is_some() || x.1.is_some();
+                let differs = a.iter().zip(b.iter()).any(|(x, y)| fin(x) && fin(y) && x != y) || a.iter().all(fin) != b.iter().all(fin);
+                if differs {
                     rep.violation(
                         i,
                         format!("C14:single-vs-all-finalize:{}", if mall { "mall" } else { "nonmall" }),
